@@ -54,6 +54,7 @@ type edit struct {
 }
 
 type fileCtx struct {
+	onlyMaps  bool // plain mode: only map ranges are rewritten (deterministic, harness-controlled iteration order)
 	fset      *token.FileSet
 	file      *ast.File
 	tf        *token.File
@@ -159,6 +160,11 @@ func (c *fileCtx) collect() {
 	ast.Inspect(c.file, func(n ast.Node) bool {
 		if n == nil || c.handled[n] {
 			return true
+		}
+		if c.onlyMaps {
+			if rs, ok := n.(*ast.RangeStmt); !ok || !isMap(c.info.TypeOf(rs.X)) {
+				return true
+			}
 		}
 		switch s := n.(type) {
 		case *ast.ImportSpec:
@@ -491,27 +497,6 @@ func main() {
 		fmt.Fprintln(os.Stderr, "instrument: cannot list package")
 		os.Exit(2)
 	}
-	if *mode == "plain" {
-		for _, ex := range extras {
-			af, _ := filepath.Abs(ex)
-			overlay[filepath.Join(absRepo, extraDst[ex])] = af
-		}
-		var names []string
-		pkgName := "log"
-		pfs := token.NewFileSet()
-		for _, name := range self[0].GoFiles {
-			f, err := parser.ParseFile(pfs, filepath.Join(absRepo, name), nil, parser.SkipObjectResolution)
-			if err != nil {
-				fmt.Fprintln(os.Stderr, "instrument: parse:", err)
-				os.Exit(2)
-			}
-			pkgName = f.Name.Name
-			names = append(names, fileVars(f)...)
-		}
-		overlay[filepath.Join(absRepo, "zz_verif_globals.go")] = writeGlobals(*out, pkgName, names)
-		writeOverlay(*out, overlay)
-		return
-	}
 	deps := goList(absRepo, "-export", "-deps", ".")
 	exports := map[string]string{}
 	for _, p := range deps {
@@ -529,9 +514,11 @@ func main() {
 	for _, name := range self[0].GoFiles {
 		files = append(files, &srcFile{path: filepath.Join(absRepo, name), dst: filepath.Join(absRepo, name)})
 	}
+	// the in-package harness files are added as they are (they only use the generated table, reflection and
+	// the public API; they are neither type-checked here nor instrumented)
 	for _, ex := range extras {
 		af, _ := filepath.Abs(ex)
-		files = append(files, &srcFile{path: af, dst: filepath.Join(absRepo, extraDst[ex])})
+		overlay[filepath.Join(absRepo, extraDst[ex])] = af
 	}
 	var asts []*ast.File
 	for _, sf := range files {
@@ -565,7 +552,7 @@ func main() {
 	nedits := 0
 	for _, sf := range files {
 		c := &fileCtx{fset: fset, file: sf.f, tf: fset.File(sf.f.Pos()), src: sf.src, info: info,
-			handled: map[ast.Node]bool{}, recv2: map[*ast.UnaryExpr]bool{}}
+			handled: map[ast.Node]bool{}, recv2: map[*ast.UnaryExpr]bool{}, onlyMaps: *mode == "plain"}
 		c.collect()
 		if len(c.edits) == 0 {
 			if sf.path != sf.dst {
